@@ -15,10 +15,11 @@ go build ./... || { echo "DOES NOT COMPILE"; exit 1; }
 VERIF_REPO=$WT python3 /verif/bin/baseline.py | tail -3
 echo "--- demo WITH change (must fail):"
 go test -vet=off -count=1 -run 'Seeded|Demo' $PKG 2>&1 | tail -4
-git stash -q
+# (no git stash: the stash is shared by all worktrees of a repository)
+git apply -R /verif/seeded/$NAME/patch.diff
 echo "--- demo WITHOUT change (must pass):"
 go test -vet=off -count=1 -run 'Seeded|Demo' $PKG 2>&1 | tail -2
-git stash pop -q
+git apply /verif/seeded/$NAME/patch.diff
 for c in $CHECKS; do
   echo "--- check $c against the changed tree:"
   (cd /verif && VERIF_REPO=$WT python3 bin/check.py $c --tier quick 2>&1 | grep -E "VIOLATION|held|VIOLATED|INFRA|family" | cut -c1-170 | tail -6)
